@@ -301,7 +301,11 @@ func (e *engine) merge(res *PathResult) {
 		}
 	}
 	for _, v := range res.Violations {
-		k := v.Kind + "|" + v.Msg + "|" + strings.Join(v.Known, ",")
+		mc := v.Msg
+		if j := strings.Index(mc, " :: "); j >= 0 {
+			mc = mc[:j]
+		}
+		k := v.Kind + "|" + mc + "|" + strings.Join(v.Known, ",")
 		if e.vcount == nil {
 			e.vcount = map[string]int{}
 		}
